@@ -272,4 +272,17 @@ VerdictC14(rec, ref) ==
   ELSE IF rec.k \notin DOMAIN ref THEN "thread-died"
   ELSE IF rec.res # ref[rec.k] THEN (IF rec.who = "seq" THEN "result-depends-on-earlier-calls" ELSE "result-depends-on-concurrent-calls")
   ELSE ""
+
+(* ---- C07 on token streams with hints ------------------------------------- *)
+VerdictC07s(L, q, r) ==
+  IF r.batch.st # "ok" \/ r.span_t2d.st # "ok" THEN "panic"
+  ELSE LET occs == r.batch.v  sp == r.span_t2d.v
+           a == First([k \in 1..Len(occs) |->
+                  IF IsDecimalText(L, occs[k].t) THEN ""
+                  ELSE IF sp[k].st # "ok" THEN "span-words-rejected-by-validator"
+                  ELSE IF sp[k].v # occs[k].t THEN "span-words-validate-to-other-digits"
+                  ELSE ""])
+       IN IF a # "" THEN a
+          ELSE IF q.thr = "0" /\ r.word_t2d.v # <<>> THEN "valid-number-word-left-outside-occurrences"
+          ELSE ""
 =============================================================================
